@@ -322,7 +322,8 @@ PeerClose ==
 
 \* an over-long command line: 500 5.4.0 and the connection is closed
 LongLine ==
-  /\ InCmdMode /\ "long" \in Alphabet
+  \* also while the server waits for an AUTH response
+  /\ ~st.closed /\ "long" \in Alphabet
   /\ st' = ClosedSt(st)
   /\ Emit(Cmd("LONG", ""), <<R(500, <<5, 4, 0>>)>>, CloseCbs(st))
 
